@@ -3,6 +3,7 @@ package vkit
 import (
 	"bytes"
 	"math/big"
+	"sort"
 
 	"github.com/xuperchain/xupercore/bcs/ledger/xledger/config"
 	"github.com/xuperchain/xupercore/bcs/ledger/xledger/state"
@@ -69,14 +70,29 @@ type Obs struct {
 	Keys     map[string][]byte // value, nil if absent / deleted
 	KeyVers  map[string]string // "txid/offset"
 	Utxo     [][2][]byte       // raw U table
+	Pool     []string          // ids of pending transactions, sorted
+	HasTx    map[string]bool   // HasTx for the ids of interest
 }
+
+var TxsOfInterest = []string{"t1", "t2", "bad"}
 
 var Addrs = []string{"A", "B", "C", "M"}
 var KeysOfInterest = []string{"k1", "k2"}
 
 // Observe reads every observable through the public API.
 func Observe(s *state.State) *Obs {
-	o := &Obs{Balances: map[string]*big.Int{}, Keys: map[string][]byte{}, KeyVers: map[string]string{}}
+	o := &Obs{Balances: map[string]*big.Int{}, Keys: map[string][]byte{}, KeyVers: map[string]string{}, HasTx: map[string]bool{}}
+	if txs, err := s.GetUnconfirmedTx(false); err == nil {
+		for _, t := range txs {
+			o.Pool = append(o.Pool, string(t.Txid))
+		}
+		sort.Strings(o.Pool)
+	} else {
+		o.Pool = []string{"error"}
+	}
+	for _, id := range TxsOfInterest {
+		o.HasTx[id], _ = s.HasTx([]byte(id))
+	}
 	for _, a := range Addrs {
 		b, err := s.GetBalance(a)
 		if err != nil {
@@ -123,6 +139,15 @@ func Same(a, b *Obs, assert func(cond bool, label string)) {
 	for _, k := range KeysOfInterest {
 		assert(bytes.Equal(a.Keys[k], b.Keys[k]) && (a.Keys[k] == nil) == (b.Keys[k] == nil), "same-key-value")
 		assert(a.KeyVers[k] == b.KeyVers[k], "same-key-version")
+	}
+	assert(len(a.Pool) == len(b.Pool), "same-number-of-pending-transactions")
+	if len(a.Pool) == len(b.Pool) {
+		for i := range a.Pool {
+			assert(a.Pool[i] == b.Pool[i], "same-pending-transaction")
+		}
+	}
+	for _, id := range TxsOfInterest {
+		assert(a.HasTx[id] == b.HasTx[id], "same-pool-membership")
 	}
 	assert(len(a.Utxo) == len(b.Utxo), "same-number-of-unspent-outputs")
 	if len(a.Utxo) == len(b.Utxo) {
